@@ -372,6 +372,10 @@ class Program(object):
                     return self._resolve_import(m.imports[attr], depth + 1)
                 if attr in m.assigns:
                     return ("global", m, attr)
+                for sm in m.star_imports:
+                    r = self._resolve_import(sm + "." + attr, depth + 1)
+                    if r is not None:
+                        return r
         return None
 
     # ------------------------------------------------------------------- MRO
